@@ -32,6 +32,9 @@ func runReaderProps(r *Run, prop string) {
 	if prop == "C03" {
 		bigRegularBlock(r)
 		bigArrayBlocks(r)
+		c03NamedTargets(r)
+	} else {
+		c04Aliases(r)
 	}
 	n := r.N(260, 6000)
 	fam := readerFamily()
